@@ -718,9 +718,12 @@ static void check_outcome(cfg_t *ctx, int act_kind, int act_state, struct pstate
 		/* materialising the declared default of a deprecated option is not a use of it */
 		V_ASSERT(n_err == 0, "[C01] the declared default of a deprecated option is set up silently");
 		V_ASSERT(O->nvalues == pre_nvalues, "[C01] an unmentioned deprecated option keeps its declared default (drop applies to assignments in the text)");
-	} else
+	}
+	if (0) /* what follows a default value string other than its end is a broken declaration: unspecified */
+#else
+	if (T != 0 && !(T == '}' && pre_level == 0) && !(T == -1 && pre_level > 0)) /* not where the text is rejected anyway */
 #endif
-	if (T != 0 && !(T == '}' && pre_level == 0) && !(T == -1 && pre_level > 0)) { /* not where the text is rejected anyway */
+	{
 		V_ASSERT(n_err >= 1, "[C01] a deprecated option that was assigned is reported");
 		if (O->flags & CFGF_DROP)
 			V_ASSERT(O->nvalues == 0, "[C01] a deprecated option flagged 'drop' holds no value after the item that assigned it");
